@@ -42,24 +42,49 @@ def _find_assign(fn, name):
     return None
 
 
+def bindings(fn, node):
+    """Every assignment (anywhere in the function) to a name the expression reads: what N, R, L, mask *are* is part of
+    the budget formula. Emitted verbatim (normalised source text); the tie pins them."""
+    names = sorted({n.id for n in ast.walk(node) if isinstance(n, ast.Name) and n.id not in ("self", "np", "int", "round", "i")})
+    found = []
+    for st in ast.walk(fn):
+        targets = []
+        if isinstance(st, ast.Assign):
+            targets = st.targets
+        elif isinstance(st, (ast.AugAssign, ast.AnnAssign)):
+            targets = [st.target]
+        for t in targets:
+            tn = [e.id for e in ast.walk(t) if isinstance(e, ast.Name) and isinstance(e.ctx, ast.Store)]
+            if any(n in names for n in tn):
+                found.append((st.lineno, ast.unparse(st).replace('"', "'")))
+    return [t for _, t in sorted(set(found))]
+
+
+def _strlist(name, items):
+    return "Definition %s : list string := [%s].\n" % (name, "; ".join('"%s"' % i.replace('"', '""') for i in items))
+
+
 def generate(ctx):
     path = ctx.src("direct/common/subsample.py")
     tree, _ = pg.parse_file(path)
-    out = "From Coq Require Import QArith.\n"
+    out = "From Coq Require Import QArith String.\nOpen Scope string_scope.\n"
     env = {"num_cols": "N", "acceleration": "R", "num_low_freqs": "L", "num_rows": "M"}
     a = _find_assign(pg.find_def(tree, "RandomMaskFunc.mask_func", path), "prob")
     if a is None:
         raise Untranslatable("RandomMaskFunc: prob not found", None, path)
     out += "Definition random_prob (N R L : Q) : Q := %s.\n" % qexpr(a.value, env, path)
+    out += _strlist("random_bindings", bindings(pg.find_def(tree, "RandomMaskFunc.mask_func", path), a.value))
     a = _find_assign(pg.find_def(tree, "EquispacedMaskFunc.mask_func", path), "adjusted_accel")
     if a is None:
         raise Untranslatable("EquispacedMaskFunc: adjusted_accel not found", None, path)
     out += "Definition equi_adjusted (N R L : Q) : Q := %s.\n" % qexpr(a.value, env, path)
+    out += _strlist("equi_bindings", bindings(pg.find_def(tree, "EquispacedMaskFunc.mask_func", path), a.value))
     a = _find_assign(pg.find_def(tree, "Gaussian1DMaskFunc.mask_func", path), "nonzero_count")
     v = a.value if a is not None else None
     if not (isinstance(v, ast.Call) and ast.unparse(v.func) == "int" and isinstance(v.args[0], ast.Call) and ast.unparse(v.args[0].func) == "np.round"):
         raise Untranslatable("Gaussian1D: nonzero_count is not int(np.round(...))", None, path)
     out += "Definition g1d_arg (N R L : Q) : Q := %s.\n" % qexpr(v.args[0].args[0], env, path)
+    out += _strlist("g1d_bindings", bindings(pg.find_def(tree, "Gaussian1DMaskFunc.mask_func", path), v.args[0].args[0]))
     fn2 = pg.find_def(tree, "Gaussian2DMaskFunc.mask_func", path)
     a = _find_assign(fn2, "nonzero_count")
     v = a.value if a is not None else None
@@ -68,6 +93,7 @@ def generate(ctx):
     env2 = dict(env)
     env2["mask.sum()"] = "L"
     out += "Definition g2d_arg (N M R L : Q) : Q := %s.\n" % qexpr(v.args[0].args[0], env2, path)
+    out += _strlist("g2d_bindings", bindings(fn2, v.args[0].args[0]))
     # the dynamic branch must use the same expression per frame
     dyn = [ast.unparse(n) for n in ast.walk(fn2) if isinstance(n, ast.Call) and ast.unparse(n.func) == "np.round"]
     if sorted(d.replace("mask[i].sum()", "mask.sum()") for d in dyn) != sorted([ast.unparse(v.args[0])] * 2):
@@ -167,6 +193,8 @@ def oracles(ctx, deep):
     for _ in range(ctx.n(150, 1500) * (2 if deep else 1)):
         name = rng.choice(["Gaussian1D", "Gaussian2D", "VariableDensityPoisson", "FastMRIEquispaced", "CartesianEquispaced", "FastMRIEquispaced"])
         R = rng.choice(ACCELS)
+        mode = rng.choice(["static", "static", "dynamic", "multislice"])
+        frames = 1 if mode == "static" else rng.randint(2, 4)
         if name in ("Gaussian2D", "VariableDensityPoisson"):
             n, m = rng.randint(16, 64 if name == "VariableDensityPoisson" else 128), rng.randint(16, 64 if name == "VariableDensityPoisson" else 128)
             shape = [n, m, 2]
@@ -174,26 +202,56 @@ def oracles(ctx, deep):
         else:
             shape = [rng.randint(8, 12), rng.randint(32, 400), 2]
             cf = rng.choice([4, 8, 12, 16]) if name.startswith("Cartesian") else rng.choice([0.02, 0.04, 0.08, 0.1])
+        if mode != "static":
+            shape = [frames] + shape
         if not G.feasible(name, shape, R, cf):
             continue
         seed = rng.randrange(10**6)
         runs += 1
-        cfg = {"generator": name, "shape": shape, "acceleration": R, "center_fraction": cf, "seed": seed}
-        r = G.call(G.build(name, R, cf, "static"), shape, seed, False, seconds=20)
+        kw = {}
+        if name == "VariableDensityPoisson" and rng.random() < 0.4:
+            kw["crop_corner"] = True
+        # an instance that served other accelerations / seeds before must give the same budget
+        history = rng.random() < 0.4
+        accs, cfs = [R], [cf]
+        if history:
+            R2 = rng.choice([a for a in ACCELS if a != R])
+            if G.feasible(name, shape, R2, cf):
+                accs, cfs = [R, R2], [cf, cf]
+        cfg = {"generator": name, "mode": mode, "shape": shape, "acceleration": R, "center_fraction": cf, "seed": seed, "options": kw, "instance_accelerations": accs}
+        mf = G.build(name, accs, cfs, mode, **kw)
+        if len(accs) > 1:
+            for j in range(rng.randint(1, 6)):
+                G.call(mf, shape, rng.randrange(10**6), False, seconds=20)
+            # the acceleration a seeded call uses is the seeded choice
+            import numpy as np
+
+            idx = np.random.RandomState()
+            mf2 = G.build(name, accs, cfs, mode, **kw)
+            from direct.common.subsample import temp_seed
+
+            with temp_seed(mf2.rng, seed):
+                _, R_used = mf2.choose_acceleration()
+        else:
+            R_used = R
+        r = G.call(mf, shape, seed, False, seconds=20)
         if r[0] != "ok":
             continue  # C04
         rows, cols = shape[-3], shape[-2]
-        if name in ("Gaussian2D", "VariableDensityPoisson"):
-            count, total = int(r[1].sum()), rows * cols
-        else:
-            count, total = int(r[1].reshape(rows, cols)[0].sum()), cols
-        want = total / R
-        if name.startswith("Gaussian") and abs(count - want) > 1.0 + 1e-9:
-            add(Violation("gaussian-budget", "%s: %d of %d samples for acceleration %s (N/R = %.2f): off by more than one sample" % (name, count, total, R, want), {"config": cfg, "count": count, "expected": want}, {"generator": name, "kind": "budget"}))
-        if "Equispaced" in name and abs(count - want) > 2.0 + 1e-9:
-            add(Violation("equispaced-budget", "%s: %d of %d columns for acceleration %s (N/R = %.2f): off by more than two columns" % (name, count, total, R, want), {"config": cfg, "count": count, "expected": want}, {"generator": name, "kind": "budget"}))
-        if name == "VariableDensityPoisson" and abs(total / count - R) >= 0.2:
-            add(Violation("poisson-tolerance", "VariableDensityPoisson returned a mask with acceleration %.3f for requested %s (tolerance 0.2)" % (total / count, R), {"config": cfg, "count": count}, {"generator": name, "kind": "budget"}))
+        full = r[1].reshape(frames, -1, cols) if name not in ("Gaussian2D", "VariableDensityPoisson") else r[1].reshape(frames, rows, cols)
+        for f in range(frames):
+            if name in ("Gaussian2D", "VariableDensityPoisson"):
+                count, total = int(full[f].sum()), rows * cols
+            else:
+                count, total = int(full[f][0].sum()), cols
+            want = total / R_used
+            c2 = dict(cfg, frame=f, acceleration_used=R_used)
+            if name.startswith("Gaussian") and abs(count - want) > 1.0 + 1e-9:
+                add(Violation("gaussian-budget", "%s (%s, frame %d): %d of %d samples for acceleration %s (N/R = %.2f): off by more than one sample" % (name, mode, f, count, total, R_used, want), {"config": c2, "count": count, "expected": want}, {"generator": name, "kind": "budget"}))
+            if "Equispaced" in name and abs(count - want) > 2.0 + 1e-9:
+                add(Violation("equispaced-budget", "%s (%s, frame %d): %d of %d columns for acceleration %s (N/R = %.2f): off by more than two columns" % (name, mode, f, count, total, R_used, want), {"config": c2, "count": count, "expected": want}, {"generator": name, "kind": "budget"}))
+            if name == "VariableDensityPoisson" and (count == 0 or abs(total / count - R_used) >= 0.2):
+                add(Violation("poisson-tolerance", "VariableDensityPoisson (%s, frame %d, %s) returned a mask with acceleration %.3f for requested %s (tolerance 0.2)" % (mode, f, kw, total / max(count, 1), R_used), {"config": c2, "count": count}, {"generator": name, "kind": "budget"}))
     # random line masks: expectation over seeds
     nseeds = ctx.n(400, 2000)
     for _ in range(ctx.n(6, 30)):
@@ -201,20 +259,24 @@ def oracles(ctx, deep):
         N = rng.randint(32, 400)
         R = rng.choice(ACCELS)
         cf = rng.choice([4, 8, 12]) if name.startswith("Cartesian") else rng.choice([0.02, 0.04, 0.08])
-        shape = [8, N, 2]
+        mode = rng.choice(["static", "dynamic", "multislice"])
+        frames = 1 if mode == "static" else rng.randint(2, 3)
+        shape = [8, N, 2] if mode == "static" else [frames, 8, N, 2]
         if not G.feasible(name, shape, R, cf):
             continue
         L = G.num_low(name, N, cf)
-        mf = G.build(name, R, cf, "static")
-        tot = 0
+        mf = G.build(name, R, cf, mode)
+        tot = [0] * frames
         for s in range(nseeds):
-            r = mf(shape, seed=s)
-            tot += int(r.reshape(8, N)[0].sum())
+            r = mf(shape, seed=s).reshape(frames, 8, N)
+            for f in range(frames):
+                tot[f] += int(r[f][0].sum())
         runs += nseeds
-        mean = tot / nseeds
         p = (N / R - L) / (N - L)
         sigma = math.sqrt((N - L) * p * (1 - p) / nseeds)
-        if abs(mean - N / R) > 5 * sigma + 1e-9:
-            add(Violation("random-expected-budget", "%s width %d acceleration %s: mean sampled columns over %d seeds is %.3f, expected %.3f (5 sigma = %.3f)" % (name, N, R, nseeds, mean, N / R, 5 * sigma), {"generator": name, "width": N, "acceleration": R, "center_fraction": cf, "seeds": nseeds, "mean": mean, "expected": N / R}, {"generator": name, "kind": "expectation"}))
+        for f in range(frames):
+            mean = tot[f] / nseeds
+            if abs(mean - N / R) > 5 * sigma + 1e-9:
+                add(Violation("random-expected-budget", "%s (%s, frame %d) width %d acceleration %s: mean sampled columns over %d seeds is %.3f, expected %.3f (5 sigma = %.3f)" % (name, mode, f, N, R, nseeds, mean, N / R, 5 * sigma), {"generator": name, "mode": mode, "frame": f, "width": N, "acceleration": R, "center_fraction": cf, "seeds": nseeds, "mean": mean, "expected": N / R}, {"generator": name, "kind": "expectation"}))
     ctx.oracle_runs = runs
     return out
